@@ -123,6 +123,20 @@ Theorem C13_err_protocol : forall (o : oracles) (h : list hcall) (st : errst),
 Proof. exact err_protocol. Qed.
 Print Assumptions C13_err_protocol.
 
+(* … and the same for real programs: in ANY sequence of calls of ANY built-ins
+   with ANY arguments (run through the dispatcher call_builtin and evalFunccall's
+   bookkeeping), err/errmsg observed after the i-th executed call describe the
+   last str2num/str2bool call among the first i+1 calls; no other built-in
+   touches them *)
+Theorem C13_err_protocol_programs : forall o ff calls st t i cr,
+  nth_error (fst (fst (fst (run_calls o ff calls st t)))) i = Some cr ->
+  c_err cr = match last_conv (firstn (S i) (calls_hist calls)) with
+             | Some c => documented_state o c
+             | None => b_err st
+             end.
+Proof. exact run_calls_err_protocol. Qed.
+Print Assumptions C13_err_protocol_programs.
+
 Theorem C13_str2bool_literals : forall s,
   (parse_bool s = Some true <-> In s true_literals) /\
   (parse_bool s = Some false <-> In s false_literals) /\
